@@ -70,6 +70,16 @@ fn to_db(k: &LKey) -> Result<Vec<u8>, String> {
         LKey::Sorted(p, k) => M::to_db_sort_key(&SubstateKey::Sorted((p, k))).0,
     })
 }
+/// the same sort key through to_db_sort_key_from_ref (SubstateKeyRef)
+fn to_db_from_ref(k: &LKey) -> Option<Result<Vec<u8>, String>> {
+    let k = k.clone();
+    match k {
+        LKey::Field(f) => Some(catch(move || M::to_db_sort_key_from_ref(SubstateKeyRef::Field(&f)).0)),
+        LKey::Map(m) => Some(catch(move || M::to_db_sort_key_from_ref(SubstateKeyRef::Map(&m)).0)),
+        LKey::Sorted(p, m) => Some(catch(move || M::to_db_sort_key_from_ref(SubstateKeyRef::Sorted(&(p, m))).0)),
+        _ => None,
+    }
+}
 fn from_db(which: u8, part: bool, db: &[u8]) -> Result<LKey, String> {
     let db = db.to_vec();
     catch(move || {
@@ -150,6 +160,8 @@ enum Spec {
     Round(LKey),
     From(u8, Vec<u8>),
     Order([u8; 2], Vec<u8>, [u8; 2], Vec<u8>),
+    /// to_db_partition_key / from_db_partition_key called directly (the provided trait methods)
+    PartKey(Vec<u8>, u8),
 }
 
 /// Deterministic boundary family (identical for every seed): every slice/length comparison of the
@@ -169,6 +181,11 @@ fn boundary_family() -> Vec<(Spec, String)> {
         v.push((Spec::Round(LKey::Map(k.clone())), c(if k.is_empty() { "bf_round_map_empty" } else { "bf_round_map" })));
         for p in [[0u8, 0], [0xff, 0xff], [0, 0xff], [0xff, 0]] {
             v.push((Spec::Round(LKey::Sorted(p, k.clone())), c(if k.is_empty() { "bf_round_sorted_empty" } else { "bf_round_sorted" })));
+        }
+    }
+    for n in [vec![0u8; 30], vec![0xff; 30], (100..130u8).collect::<Vec<_>>()] {
+        for p in [0u8, 1, 128, 255] {
+            v.push((Spec::PartKey(n.clone(), p), c("bf_partition_key_roundtrip")));
         }
     }
     // --- from_* on arbitrary bytes: every length around each slice bound, for every function ---
@@ -233,7 +250,9 @@ fn boundary_family() -> Vec<(Spec, String)> {
 
 fn random_spec(rng: &mut Rng) -> Spec {
     let kind = rng.below(10);
-    if kind < 6 {
+    if kind == 0 {
+        Spec::PartKey(rng.bytes(30), rng.next_u64() as u8)
+    } else if kind < 6 {
         Spec::Round(gen_key(rng))
     } else if kind < 8 {
         let which = rng.below(4) as u8;
@@ -300,6 +319,17 @@ fn main() {
                 (LKey::Sorted(..), Ok(d)) => d.iter().skip(2).take(20).cloned().collect(),
                 _ => vec![0u8; 20],
             };
+            // the SubstateKeyRef entry point must give the same database key (and is what the case records on odd indices)
+            let db = match to_db_from_ref(&k) {
+                Some(r) => {
+                    report.count("sort_key_from_ref_calls");
+                    if r != db {
+                        report.oracle_failure(i, "", "to_db_sort_key_from_ref differs from to_db_sort_key", json!({"key": lkey_json(&k)}));
+                    }
+                    if i % 2 == 1 { r } else { db }
+                }
+                None => db,
+            };
             let canon = format!("R{}", lkey_coq(&k));
             report.case(&canon, hashed_bytes(&k).is_some());
             report.count(match &k {
@@ -338,6 +368,35 @@ fn main() {
             let db_coq = coq_option(db.as_ref().ok().map(|d| coq_bytes(d)));
             let back_coq = coq_option(back.and_then(|b| b.ok()).map(|b| lkey_coq(&b)));
             cw.push(format!("CRound {} {} {} {}", lkey_coq(&k), coq_bytes(&hp), db_coq, back_coq));
+        }
+        Spec::PartKey(n, p) => {
+            let node = NodeId(n.clone().try_into().unwrap());
+            let db = catch(move || M::to_db_partition_key(&node, PartitionNumber(p)));
+            let back = match &db {
+                Ok(d) => {
+                    let d = d.clone();
+                    Some(catch(move || M::from_db_partition_key(&d)))
+                }
+                Err(_) => None,
+            };
+            report.case(&format!("P{}{}", hex(&n), p), true);
+            report.count("partition_key_roundtrip");
+            match (&db, &back) {
+                (Ok(d), Some(Ok((bn, bp)))) => {
+                    let h = hash(&n);
+                    if bn.0[..] != n[..] || bp.0 != p || d.partition_num != p || d.node_key.len() != 50 || d.node_key[..20] != h.0[..20] || d.node_key[20..] != n[..] {
+                        report.oracle_failure(i, "", "to_db_partition_key/from_db_partition_key round trip or layout broken", json!({"node": hex(&n), "partition": p, "db_node_key": hex(&d.node_key)}));
+                    }
+                }
+                _ => report.oracle_failure(i, "", "to_db_partition_key/from_db_partition_key panicked", json!({"node": hex(&n), "partition": p})),
+            }
+            let hp: Vec<u8> = db.as_ref().map(|d| d.node_key.iter().take(20).cloned().collect()).unwrap_or(vec![0u8; 20]);
+            cw.push(format!(
+                "CPartKey {} {} {} {} {}",
+                coq_bytes(&n), p, coq_bytes(&hp),
+                coq_option(db.as_ref().ok().map(|d| format!("({}, {})", coq_bytes(&d.node_key), d.partition_num))),
+                coq_option(back.and_then(|b| b.ok()).map(|(bn, bp)| format!("({}, {})", coq_bytes(&bn.0), bp.0)))
+            ));
         }
         Spec::From(which, db) => {
             let back = from_db(which, false, &db);
@@ -386,7 +445,7 @@ fn main() {
         report.floor(cl, *n);
     }
     for cl in [
-        "bf_round_node", "bf_round_partition", "bf_round_field", "bf_round_map", "bf_round_map_empty", "bf_round_sorted", "bf_round_sorted_empty",
+        "bf_partition_key_roundtrip", "sort_key_from_ref_calls", "partition_key_roundtrip", "bf_round_node", "bf_round_partition", "bf_round_field", "bf_round_map", "bf_round_map_empty", "bf_round_sorted", "bf_round_sorted_empty",
         "bf_from_node_exact", "bf_from_node_off_by_one", "bf_from_node_other_len", "bf_from_field_empty", "bf_from_field_single", "bf_from_field_with_tail",
         "bf_from_map_19", "bf_from_map_20_empty_key", "bf_from_map_short", "bf_from_map_longer",
         "bf_from_sorted_lt2", "bf_from_sorted_21", "bf_from_sorted_22_empty_key", "bf_from_sorted_2_to_20", "bf_from_sorted_longer",
